@@ -33,10 +33,16 @@ void aes_cbc_encrypt(const AES_KEY *key, const uint8_t iv[16],
 void aes_cbc_decrypt(const AES_KEY *key, const uint8_t iv[16],
 	const uint8_t *in, size_t nblocks, uint8_t *out)
 {
+	uint8_t prev[16];
+	uint8_t cur[16];
+
+	// keep the ciphertext block: with out == in it is overwritten by the plaintext
+	memcpy(prev, iv, 16);
 	while (nblocks--) {
+		memcpy(cur, in, 16);
 		aes_decrypt(key, in, out);
-		memxor(out, iv, 16);
-		iv = in;
+		memxor(out, prev, 16);
+		memcpy(prev, cur, 16);
 		in += 16;
 		out += 16;
 	}
